@@ -176,6 +176,65 @@ func c09TaggedRR(owner string, qname string, qtype uint16, ttl uint32) dnsmessag
 	}
 }
 
+// Records of a truncated (TC=1) upstream reply carry their own marker, so that a partial
+// record set that surfaces as a complete answer (to a client with TC=0, or in the cache)
+// is recognisable: A 11.x.y.z instead of 10.x.y.z, AAAA fd0a:: instead of fd09::, text
+// "c09tc:" instead of "c09:".
+func c09PartialRR(qname string, qtype uint16, ttl uint32) dnsmessage.RR {
+	rr := c09TaggedRR(qname, qname, qtype, ttl)
+	switch b := rr.(type) {
+	case *dnsmessage.A:
+		b.A[0] = 11
+	case *dnsmessage.AAAA:
+		b.AAAA[1] = 0x0a
+	case *dnsmessage.TXT:
+		b.Txt[0] = "c09tc:" + strings.TrimPrefix(b.Txt[0], "c09:")
+	}
+	return rr
+}
+
+func c09IsPartialRR(rr dnsmessage.RR, name string, qtype uint16) bool {
+	want := c09PartialRR(name, qtype, 0)
+	if !strings.EqualFold(rr.Header().Name, dnsmessage.Fqdn(name)) {
+		return false
+	}
+	switch b := rr.(type) {
+	case *dnsmessage.A:
+		w, ok := want.(*dnsmessage.A)
+		return ok && b.A.Equal(w.A)
+	case *dnsmessage.AAAA:
+		w, ok := want.(*dnsmessage.AAAA)
+		return ok && b.AAAA.Equal(w.AAAA)
+	case *dnsmessage.TXT:
+		w, ok := want.(*dnsmessage.TXT)
+		return ok && len(b.Txt) == 1 && b.Txt[0] == w.Txt[0]
+	}
+	return false
+}
+
+func c09LooksPartial(rr dnsmessage.RR) bool {
+	switch b := rr.(type) {
+	case *dnsmessage.A:
+		return len(b.A.To4()) == 4 && b.A.To4()[0] == 11
+	case *dnsmessage.AAAA:
+		return len(b.AAAA) == 16 && b.AAAA[0] == 0xfd && b.AAAA[1] == 0x0a
+	case *dnsmessage.TXT:
+		return len(b.Txt) == 1 && strings.HasPrefix(b.Txt[0], "c09tc:")
+	}
+	return false
+}
+
+// c09BuildTruncated: what an upstream sends when the answer does not fit: TC=1 and the
+// 0..n records that did fit.
+func c09BuildTruncated(q dnsmessage.Question, id uint16, nPartial int) *dnsmessage.Msg {
+	m := c09BuildAnswer(q, id, c09AnsEmpty)
+	m.Truncated = true
+	for i := 0; i < nPartial; i++ {
+		m.Answer = append(m.Answer, c09PartialRR(q.Name, q.Qtype, 60))
+	}
+	return m
+}
+
 // c09BuildAnswer builds the upstream's answer to question q (which, for the
 // "different question" fault, is not the question that was asked) under id.
 func c09BuildAnswer(q dnsmessage.Question, id uint16, kind int) *dnsmessage.Msg {
@@ -213,6 +272,9 @@ func c09CheckRR(rr dnsmessage.RR, name string, qtype uint16) error {
 	tag := c09Tag(name, qtype)
 	owner := strings.ToLower(rr.Header().Name)
 	cname := c09TagCname(tag)
+	if c09LooksPartial(rr) {
+		return fmt.Errorf("%s is a record of a truncated (TC=1) upstream reply, presented as a complete answer to %s/%d", strings.ReplaceAll(rr.String(), "\t", " "), lname, qtype)
+	}
 	switch b := rr.(type) {
 	case *dnsmessage.A:
 		if qtype != dnsmessage.TypeA || !b.A.Equal(c09TagIP4(tag)) || (owner != lname && owner != cname) {
@@ -255,6 +317,9 @@ func c09CheckReply(msg *dnsmessage.Msg, checkID bool, id uint16, name string, qt
 		return fmt.Errorf("reply carries question %s/%d/%d, the request asked %s/%d", q.Name, q.Qtype, q.Qclass, name, qtype)
 	}
 	for _, rr := range msg.Answer {
+		if msg.Truncated && c09IsPartialRR(rr, name, qtype) {
+			continue // an honest TC=1 reply may pass on what fitted
+		}
 		if err := c09CheckRR(rr, name, qtype); err != nil {
 			return err
 		}
@@ -348,6 +413,7 @@ type c09Action struct {
 	kind    int
 	ansKind int
 	foreign dnsmessage.Question
+	partial int    // records that fitted into a truncated reply
 	respID  uint16 // ID the upstream reply carries (TCP pipelines use their own IDs)
 }
 
@@ -488,8 +554,8 @@ func (f *c09Fwd) ForwardDNS(ctx context.Context, data []byte) (*dnsmessage.Msg, 
 	case c09ActForeign:
 		msg = c09BuildAnswer(act.foreign, act.respID, act.ansKind)
 	case c09ActTrunc:
-		msg = c09BuildAnswer(q, act.respID, c09AnsEmpty)
-		msg.Truncated = true
+		// exactly what DoUDP.ForwardDNS returns for a TC=1 datagram
+		msg = c09BuildTruncated(q, act.respID, act.partial)
 		err = ErrDNSTruncated
 	case c09ActTimeout:
 		select {
